@@ -499,3 +499,122 @@ Section main.
     load o reg (Some (Map t ps' m)) (TClass c) = Ok v.
   Proof. unfold load. exact (load_key_order_gen FUEL 198 t ps ps' m c v eq_refl). Qed.
 End main.
+
+(* ---- classes that take _yatiml_extra: the extra attributes arrive in document order, everything else is unchanged ---- *)
+Section extras.
+  Variable o : oracle.
+  Variable reg : registry.
+  Hypothesis Hrec : no_recognisers reg.
+  Hypothesis Hsav : no_savorizers reg.
+
+  (* two objects of the same class whose keyword arguments agree except for the order inside the _yatiml_extra mapping *)
+  Definition same_upto_extras (v v' : value) : Prop :=
+    exists d main ex ex', v = VObj d (main ++ [(extra_name, VDict ex)]) /\ v' = VObj d (main ++ [(extra_name, VDict ex')]) /\ Permutation ex ex'.
+
+  Lemma init_args_perm_extra params (kw kw' : list (value * value)) args :
+    Permutation (kwargs_of kw) (kwargs_of kw') -> NoDup (map fst (kwargs_of kw)) ->
+    init_args reg params true kw = Some args ->
+    exists main ex ex', args = main ++ [(extra_name, VDict ex)] /\
+      init_args reg params true kw' = Some (main ++ [(extra_name, VDict ex')]) /\ Permutation ex ex'.
+  Proof.
+    intros P Hn.
+    assert (U : forall a, uassoc a (kwargs_of kw) = uassoc a (kwargs_of kw')) by (intros a; apply uassoc_perm; assumption).
+    assert (F1 : forallb (fun p => match uassoc (p_name p) (kwargs_of kw) with
+                                   | None => negb (p_required p) | Some v => type_matches reg v (p_ty p) end) params =
+                 forallb (fun p => match uassoc (p_name p) (kwargs_of kw') with
+                                   | None => negb (p_required p) | Some v => type_matches reg v (p_ty p) end) params).
+    { induction params as [|p r IHp]; [reflexivity|]. cbn [forallb]. rewrite U, IHp. reflexivity. }
+    assert (M : main_args params (kwargs_of kw) = main_args params (kwargs_of kw')).
+    { unfold main_args. apply flat_map_ext. intros p. rewrite U. reflexivity. }
+    intros E. unfold init_args in *.
+    rewrite <- F1, <- (existsb_perm _ _ _ P), <- M. cbn [negb andb] in *.
+    match type of E with (if negb ?b then _ else _) = _ => destruct b end; cbn [negb] in *; [|discriminate E].
+    match type of E with (if ?b then _ else _) = _ => destruct b end; [discriminate E|]. injection E as <-.
+    eexists _, _, _. split; [reflexivity|]. split; [reflexivity|].
+    unfold extra_args. apply Permutation_map, Permutation_filter', P.
+  Qed.
+
+  Theorem construct_key_order_extra g d k params qs qs' m v :
+    find_cls reg d = Some k -> c_shape k = ShObj params true ->
+    (forall main ex ex', Permutation ex ex' ->
+       c_init_ok k (main ++ [(extra_name, VDict ex)]) = c_init_ok k (main ++ [(extra_name, VDict ex')])) ->
+    Permutation qs qs' -> NoDup (keys qs) ->
+    construct o reg (S (S g)) (Map (bang d) qs m) = Ok v ->
+    exists v', construct o reg (S (S g)) (Map (bang d) qs' m) = Ok v' /\ same_upto_extras v v'.
+  Proof.
+    intros Ek Es Hinit HP Hn E. remember (S g) as g1 eqn:Hg1.
+    rewrite (construct_obj_unfold o reg g1 d k params true qs m Ek Es) in E.
+    rewrite (construct_obj_unfold o reg g1 d k params true qs' m Ek Es).
+    assert (SK : str_keyed qs' = str_keyed qs) by (unfold str_keyed; symmetry; apply forallb_perm, HP).
+    rewrite SK. destruct (str_keyed qs) eqn:Hsk; cbn [negb] in *; [|discriminate E].
+    set (known := map p_name params) in *.
+    set (h := fun kv : node * node => if umem (key_text' (fst kv)) known then kv else (fst kv, strip_tags (snd kv))).
+    change (strip_unknown known qs) with (map h qs) in E. change (strip_unknown known qs') with (map h qs').
+    assert (Hfst : forall kv, fst (h kv) = fst kv) by (intros kv; unfold h; destruct (umem _ _); reflexivity).
+    assert (Hkeys : forall l, keys (map h l) = keys l).
+    { intros l. unfold keys. rewrite map_map. apply map_ext. intros kv. rewrite Hfst. reflexivity. }
+    assert (Hstr : forall l, str_keyed l = true -> Forall (fun kv => match fst kv with Scalar tg _ _ => ueqb tg tag_str = true | _ => False end) (map h l)).
+    { intros l Hl. unfold str_keyed in Hl. rewrite forallb_forall in Hl. apply Forall_forall. intros kv Hin.
+      apply in_map_iff in Hin. destruct Hin as (kv0 & <- & Hin0). rewrite Hfst. specialize (Hl kv0 Hin0).
+      destruct (fst kv0); [exact Hl | discriminate Hl | discriminate Hl]. }
+    assert (Hsk' : str_keyed qs' = true) by exact SK.
+    assert (PL : forall l, str_keyed l = true -> Forall (fun kv => ntag (fst kv) <> tag_merge /\ ntag (fst kv) <> tag_value) (map h l)).
+    { intros l Hl. eapply Forall_impl; [|apply (Hstr l Hl)]. intros kv Hkv. cbv beta in Hkv. destruct (fst kv) as [tg x mk| |]; try contradiction.
+      apply ueqb_eq in Hkv. subst tg. cbn [ntag]. split; intros H0; apply ueqb_eq in H0; vm_compute in H0; discriminate H0. }
+    assert (GK : forall l, str_keyed l = true -> Forall (fun kv => good_key (construct o reg g1) (fst kv)) (map h l)).
+    { intros l Hl. eapply Forall_impl; [|apply (Hstr l Hl)]. intros kv Hkv. cbv beta in Hkv. destruct (fst kv) as [tg x mk| |]; try contradiction.
+      unfold good_key. cbn [key_text']. subst g1. apply str_key_constructs, Hkv. }
+    unfold construct_map in *. rewrite (flatten_plain _ _ (PL qs Hsk)) in E. rewrite (flatten_plain _ _ (PL qs' Hsk')). cbn [bind] in *.
+    destruct (construct_pairs (construct o reg g1) (map h qs) []) as [mp|e] eqn:Ec; cbn [bind] in E; [|discriminate E].
+    destruct (construct_pairs_spec (construct o reg g1) (map h qs) [] mp (GK qs Hsk)) as [Hv Hmp].
+    { rewrite Hkeys. exact Hn. } { intros a _ []. } { constructor. } { exact Ec. }
+    assert (Hn' : NoDup (keys qs')).
+    { eapply Permutation_NoDup; [|exact Hn]. unfold keys. apply Permutation_map, HP. }
+    rewrite (construct_pairs_build (construct o reg g1) (map h qs') [] (GK qs' Hsk')).
+    - cbn [bind app] in *. subst mp. cbn [app] in E. unfold build_object in *.
+      destruct (init_args reg params true (map (entry (construct o reg g1)) (map h qs))) as [args|] eqn:Ei; [|discriminate E].
+      assert (PK : Permutation (kwargs_of (map (entry (construct o reg g1)) (map h qs))) (kwargs_of (map (entry (construct o reg g1)) (map h qs'))))
+        by (rewrite !kwargs_entries; apply Permutation_map, Permutation_map, HP).
+      assert (NK : NoDup (map fst (kwargs_of (map (entry (construct o reg g1)) (map h qs)))))
+        by (rewrite kwargs_entries, map_map; cbn [fst]; fold (keys (map h qs)); rewrite Hkeys; exact Hn).
+      destruct (init_args_perm_extra params _ _ args PK NK Ei) as (main & ex & ex' & -> & Ei' & Pex).
+      + rewrite Ei'. rewrite <- (Hinit main ex ex' Pex).
+        destruct (c_init_ok k (main ++ [(extra_name, VDict ex)])); [|discriminate E]. injection E as <-.
+        eexists. split; [reflexivity|]. exists (c_name k), main, ex, ex'. repeat split; auto.
+    - rewrite Hkeys. exact Hn'.
+    - intros a _ [].
+    - constructor.
+    - intros kv Hin. apply Hv. eapply Permutation_in; [apply Permutation_sym, Permutation_map, HP | exact Hin].
+  Qed.
+
+  Lemma load_key_order_extra_gen fu g0 t ps ps' m c v : fu = S (S g0) ->
+    Permutation ps ps' -> scalar_keys ps -> NoDup (keys ps) ->
+    (n' <- process o reg fu (Map t ps m) (TClass c) ;; construct o reg fu n') = Ok v ->
+    (forall k main ex ex', In k reg -> Permutation ex ex' ->
+       c_init_ok k (main ++ [(extra_name, VDict ex)]) = c_init_ok k (main ++ [(extra_name, VDict ex')])) ->
+    exists v', (n' <- process o reg fu (Map t ps' m) (TClass c) ;; construct o reg fu n') = Ok v' /\ (v' = v \/ same_upto_extras v v').
+  Proof.
+    intros -> HP Hs Hn E Hinit.
+    destruct (process o reg (S (S g0)) (Map t ps m) (TClass c)) as [n1|e] eqn:Ep; cbn [bind] in E; [|discriminate E].
+    destruct (process_key_order o reg Hrec Hsav _ t ps ps' m c n1 HP (perm_same ps ps' HP Hs Hn) Ep)
+      as (d & k & qs & qs' & Ek & -> & Ep' & P & K & K').
+    rewrite Ep'. cbn [bind].
+    assert (Hnq : NoDup (keys qs)).
+    { unfold keys in *. rewrite <- (map_map fst key_text'), K, (map_map fst key_text'). exact Hn. }
+    destruct (c_shape k) as [params [|]|ms|] eqn:Es.
+    - destruct (construct_key_order_extra g0 d k params qs qs' m v Ek Es) as (v' & E' & S'); auto.
+      + intros main ex ex' Pe. apply Hinit; [exact (proj1 (find_cls_In _ _ _ Ek)) | exact Pe].
+      + exists v'. split; [exact E' | right; exact S'].
+    - exists v. split; [|left; reflexivity]. exact (construct_key_order o reg g0 d k params qs qs' m v Ek Es P Hnq E).
+    - rewrite (construct_nonobj o reg _ d k qs m Ek) in E by (intros ? ?; rewrite Es; discriminate). discriminate E.
+    - rewrite (construct_nonobj o reg _ d k qs m Ek) in E by (intros ? ?; rewrite Es; discriminate). discriminate E.
+  Qed.
+
+  Theorem load_key_order_extra t ps ps' m c v :
+    Permutation ps ps' -> scalar_keys ps -> NoDup (keys ps) ->
+    load o reg (Some (Map t ps m)) (TClass c) = Ok v ->
+    (forall k main ex ex', In k reg -> Permutation ex ex' ->
+       c_init_ok k (main ++ [(extra_name, VDict ex)]) = c_init_ok k (main ++ [(extra_name, VDict ex')])) ->
+    exists v', load o reg (Some (Map t ps' m)) (TClass c) = Ok v' /\ (v' = v \/ same_upto_extras v v').
+  Proof. unfold load. exact (load_key_order_extra_gen FUEL 198 t ps ps' m c v eq_refl). Qed.
+End extras.
